@@ -131,6 +131,32 @@ def script_afterclose(rng, kinds, n):
     return {"members": members, "steps": steps, "watch": 120000, "settle": 5, "nowire": True}
 
 
+def script_many_streams(rng, kinds, n):
+    """n streams are bound, carry a packet each, live through a few ticks and are unbound again while the interceptor stays
+    open: what it holds afterwards is about the streams that are bound NOW, not about the peak."""
+    members = [{"k": k, "o": {"ivl": 1, "size": 64, "k": 5, "n": 2, "rate": 80_000_000}} for k in kinds]
+    steps = [{"a": "heap", "ms": 20, "kind": "base"}, {"a": "bindw"}, {"a": "bindr"},
+             {"a": "bindl", "s": 1, "nack": True, "twcc": 0, "rtx": False, "fec": False},
+             {"a": "bindm", "s": 2, "nack": True, "twcc": 7, "pli": False},
+             {"a": "wait", "ms": 0, "kind": "feedback-manystreams"},
+             {"a": "wrtp", "s": 1, "w": 1, "id": 1, "len": 100, "shape": 0, "fail": False, "rep": 50, "inc": 1},
+             {"a": "rrtp", "s": 2, "w": 1, "id": 1, "len": 100, "shape": 0, "tw": 1, "fail": False, "rep": 50, "inc": 1},
+             {"a": "wait", "ms": 10}, {"a": "heap", "ms": 30, "kind": "phase"}]
+    for i in range(n):
+        s = 1000 + i
+        steps.append({"a": "bindm", "s": s, "nack": True, "twcc": 7, "pli": False})
+        steps.append({"a": "bindl", "s": s + 100000, "nack": True, "twcc": 0, "rtx": False, "fec": False})
+        steps.append({"a": "rrtp", "s": s, "w": 5, "id": 1, "len": 50, "shape": 0, "tw": -1, "fail": False})
+        steps.append({"a": "wrtp", "s": s + 100000, "w": 5, "id": 1, "len": 50, "shape": 0, "fail": False})
+    steps += [{"a": "wait", "ms": 15}, {"a": "heap", "ms": 30, "kind": "phase"}]
+    for i in range(n):
+        steps.append({"a": "unbindm", "s": 1000 + i})
+        steps.append({"a": "unbindl", "s": 101000 + i})
+    steps += [{"a": "wait", "ms": 15}, {"a": "heap", "ms": 40, "kind": "unbound", "id": n},
+              {"a": "unbindl", "s": 1}, {"a": "unbindm", "s": 2}, {"a": "close"}]
+    return {"members": members, "steps": steps, "watch": 120000, "settle": 5, "nowire": True, "nostale": True}
+
+
 def run_batch(ctx, scripts, tag):
     return vlib.run_batch(ctx, tag=tag, scripts=scripts, pkg_rel="", pkgname="interceptor_test",
                           files=["zz_verif_univ_test.go", "common:zz_verif_pkt_test.go.tpl"],
@@ -163,6 +189,8 @@ def run(ctx):
         scripts.append(script_rtcp(rng, [k], 20000 if ctx.quick else 200000))
     for k in ("pacing", "ccleaky", "nackresp", "flexfec"):      # steady traffic next to a stream whose transport keeps failing
         scripts.append(script(rng, [k], "inorder", True, 2000 if ctx.quick else n, k in TIMED, failing=True))
+    for k in ("rrecv", "rsend", "nackgen", "nackresp", "twccsend", "pli", "flexfec", "pdrecv", "twcchdr", "rtpfb"):
+        scripts.append(script_many_streams(rng, [k], 3000 if ctx.quick else 8000))      # (stats, rfc8888, cc, jitter: known findings)
     for k in KINDS:                                             # traffic that keeps arriving after Close
         if k != "rtpfb":                                        # (rtpfb: known finding, grows while no feedback arrives)
             scripts.append(script_afterclose(rng, [k], 20000 if ctx.quick else 100000))
